@@ -461,7 +461,14 @@ func (c *c28Ctx) mux(ff c28F, in *fmp4.Init, start, dur time.Duration, gen, desc
 		panic(err)
 	}
 	defer f.Close()
-	evs := c28Events(bytes.NewReader(file))
+	// the events are recorded on an *os.File too: go-mp4 seeks, and bytes.Reader and os.File do not fail on the
+	// same offsets
+	f2, err := os.Open(p)
+	if err != nil {
+		panic(err)
+	}
+	evs := c28Events(f2)
+	f2.Close()
 	m := &c28Muxer{}
 	var d time.Duration
 	r := c28Do("mux "+desc, func() { d, err = segmentFMP4MuxParts(f, start, dur, in.Tracks, m) })
@@ -501,7 +508,13 @@ func (c *c28Ctx) real(ff c28F, gen, desc string, known bool) {
 		if known && r.panicked == "" {
 			class = "known:trun-zero-entry-amplification"
 		}
-		c.out.Case(cqApp("CReal", cqZ(int64(kind)), cqZ(int64(len(file))), cqBool(r.panicked != ""), cqU(r.alloc)),
+		coq := cqApp("CReal", cqZ(int64(kind)), cqZ(int64(len(file))), cqBool(r.panicked != ""), cqU(r.alloc))
+		if known {
+			// judged by the plugin (extra_checks), not inside Coq: a spec failure that is a known finding would
+			// otherwise hide model mismatches of the same run from the orchestrator
+			coq = ""
+		}
+		c.out.Case(coq,
 			map[string]any{"fn": name, "gen": gen, "what": desc, "len": len(file), "observed": oc, "panic": r.panicked,
 				"alloc": r.alloc, "err": fmt.Sprint(err), "file": hex.EncodeToString(file[:min(len(file), 160)])},
 			class, oc == "ok" || gen != "foreign")
